@@ -23,6 +23,12 @@ pub struct ParCase {
     /// words per pixel 1..=3
     pub n: u8,
     pub ops: Vec<ParOp>,
+    /// (index of the call, k): the k-th pin operation of that call fails once (if the call gets that far)
+    #[serde(default)]
+    pub faults: Vec<(u8, u16)>,
+    /// a failing pin write still changes the pin level
+    #[serde(default)]
+    pub late: bool,
 }
 
 trait MkWord: Copy + From<u8> + Eq + 'static {
@@ -52,6 +58,12 @@ where
         };
         let mut expected: Vec<(bool, u16)> = Vec::new();
         w.borrow_mut().op_budget = u64::MAX;
+        let armed: Option<u64> = case.faults.iter().find(|f| f.0 as usize == idx).map(|f| ops0 + f.1 as u64);
+        {
+            let mut wb = w.borrow_mut();
+            wb.late_faults = case.late;
+            wb.fail_at = armed.into_iter().collect();
+        }
         let r = match op {
             ParOp::Cmd { cmd, args } => {
                 expected.push((false, *cmd as u16));
@@ -97,8 +109,26 @@ where
         if wb.budget_hit {
             return Err(format!("op {} {}: did not finish within the operation budget", idx, what));
         }
-        if let Err(e) = r {
-            return Err(format!("op {} {}: returned {:?} although no pin operation failed", idx, what, e));
+        let reached = armed.map_or(false, |a| wb.ops > a);
+        if let Err(e) = &r {
+            if !reached {
+                return Err(format!("op {} {}: returned {:?} although no pin operation failed", idx, what, e));
+            }
+            // a pin operation failed and the call reported it: whatever was latched up to then must be
+            // the beginning of the words sent - no strobe may latch a half-updated or stale bus
+            let got = &wb.latch_log[log0..];
+            if got.len() > expected.len() || got != &expected[..got.len()] {
+                let pos = got.iter().zip(expected.iter()).position(|(a, b)| a != b).unwrap_or(got.len().min(expected.len()));
+                return Err(format!(
+                    "op {} {}: pin operation {} of the call failed ({:?}); the words latched at WR rising edges in that call are not a prefix of the words sent: index {} got {:?}, expected {:?} [(dc_high, word)]",
+                    idx, what, armed.unwrap() - ops0, e, pos, got.get(pos), expected.get(pos)
+                ));
+            }
+            drop(wb);
+            w.borrow_mut().fail_at.clear();
+            info.label(if case.late { "late-pin-fault-inside-a-transfer" } else { "pin-fault-inside-a-transfer" });
+            info.nontrivial = true;
+            continue;
         }
         // only electrical-level decode problems matter here (the Panel's command semantics do not)
         if let Some(e) = wb.decode_errors.iter().find(|e| e.contains("undefined") || e.contains("unexpected")) {
@@ -185,9 +215,13 @@ pub fn strategy() -> BoxedStrategy<ParCase> {
             let pixels = proptest::collection::vec(px.clone(), 0..40).prop_map(|px| ParOp::Pixels { px });
             let same = word(base).prop_map(move |v| vec![v; n as usize]);
             let rep = (prop_oneof![2 => same, 2 => px], prop_oneof![Just(0u32), Just(1u32), Just(2u32), 0u32..300]).prop_map(|(pixel, count)| ParOp::Repeat { pixel, count });
-            (Just(wide), Just(n), proptest::collection::vec(prop_oneof![2 => cmd, 3 => pixels, 3 => rep], 1..=6))
+            let faults = prop_oneof![
+                2 => Just(Vec::new()),
+                3 => proptest::collection::vec((0u8..6, prop_oneof![3 => 0u16..40, 1 => 0u16..600]), 1..=2),
+            ];
+            (Just(wide), Just(n), proptest::collection::vec(prop_oneof![2 => cmd, 3 => pixels, 3 => rep], 1..=6), faults, any::<bool>())
         })
-        .prop_map(|(wide, n, ops)| ParCase { wide, n, ops })
+        .prop_map(|(wide, n, ops, faults, late)| ParCase { wide, n, ops, faults, late })
         .boxed()
 }
 
